@@ -1,7 +1,7 @@
 """c11 — generated Flow code against the flow semantics; see gen_common.py."""
 import gen_common
 
-DEP_FILES = ["FlowSemModel.v", "FlowSemProofs.v"]
+DEP_FILES = ["FlowSemModel.v", "FlowSemProofs.v", "FlowOpModel.v", "FlowOpProofs.v", "FlowAdequacy.v"]
 PID = "C11"
 
 
